@@ -443,8 +443,12 @@ impl EmbeddingSlab {
 
         for (entity, compressed) in snapshot.embeddings {
             // Every embedding of a slab has the slab's dimension; anything else (a damaged
-            // snapshot) would be refused by `set` anyway and must not be expanded first.
-            if !compressed.is_well_formed() || compressed.dense_len() != snapshot.dimension {
+            // snapshot) would be refused by `set` anyway and must not be expanded first. A
+            // slab of dimension 0 (damaged snapshot as well) has no room for any embedding.
+            if snapshot.dimension == 0
+                || !compressed.is_well_formed()
+                || compressed.dense_len() != snapshot.dimension
+            {
                 tracing::warn!(
                     entity = %entity.as_u64(),
                     "Skipping malformed embedding in snapshot"
